@@ -256,6 +256,46 @@ func batchReadsAtomic(fd *ast.FuncDecl) bool {
 	return iUn > iGet
 }
 
+// batchReadsAtomicDeep: the pattern may also live in a method of the same receiver that the function calls at top level
+// (a helper extracted from Get and Has): the helper then IS the critical section
+func batchReadsAtomicDeep(p *pkgFuncs, recv, name string) bool {
+	fd := p.funcs[recv+"."+name]
+	if fd == nil {
+		return false
+	}
+	if batchReadsAtomic(fd) {
+		return true
+	}
+	for _, st := range fd.Body.List {
+		ok := false
+		ast.Inspect(st, func(n ast.Node) bool {
+			c, isCall := n.(*ast.CallExpr)
+			if !isCall {
+				return true
+			}
+			if sel, isSel := c.Fun.(*ast.SelectorExpr); isSel {
+				if id, isId := sel.X.(*ast.Ident); isId && id.Name == "s" {
+					if h := p.funcs[recv+"."+sel.Sel.Name]; h != nil && h != fd && batchReadsAtomic(h) {
+						ok = true
+					}
+				}
+			}
+			return true
+		})
+		if ok {
+			// no other batch lookup of its own next to the helper's
+			own := false
+			for _, o := range fd.Body.List {
+				if o != st && (containsCall(o, "batch", "IsRemoved") || containsCall(o, "batch", "Get")) {
+					own = true
+				}
+			}
+			return !own
+		}
+	}
+	return false
+}
+
 // flushHoldsLock: the batch mutex is taken before the batch is swapped/written and released only after the write returned
 func serialFlushHoldsLock(fd *ast.FuncDecl) bool {
 	if fd == nil {
@@ -313,10 +353,10 @@ func persisterSections(repo string) string {
 		doc  string
 		val  bool
 	}{
-		{"dbGetBatchReadsAtomic", "DB.Get reads IsRemoved and batch.Get inside ONE mutBatch critical section", batchReadsAtomic(p.funcs["DB.Get"])},
-		{"dbHasBatchReadsAtomic", "DB.Has reads IsRemoved and batch.Get inside ONE mutBatch critical section", batchReadsAtomic(p.funcs["DB.Has"])},
-		{"serialGetBatchReadsAtomic", "SerialDB.Get reads IsRemoved and batch.Get inside ONE mutBatch critical section", batchReadsAtomic(p.funcs["SerialDB.Get"])},
-		{"serialHasBatchReadsAtomic", "SerialDB.Has reads IsRemoved and batch.Get inside ONE mutBatch critical section", batchReadsAtomic(p.funcs["SerialDB.Has"])},
+		{"dbGetBatchReadsAtomic", "DB.Get reads IsRemoved and batch.Get inside ONE mutBatch critical section", batchReadsAtomicDeep(p, "DB", "Get")},
+		{"dbHasBatchReadsAtomic", "DB.Has reads IsRemoved and batch.Get inside ONE mutBatch critical section", batchReadsAtomicDeep(p, "DB", "Has")},
+		{"serialGetBatchReadsAtomic", "SerialDB.Get reads IsRemoved and batch.Get inside ONE mutBatch critical section", batchReadsAtomicDeep(p, "SerialDB", "Get")},
+		{"serialHasBatchReadsAtomic", "SerialDB.Has reads IsRemoved and batch.Get inside ONE mutBatch critical section", batchReadsAtomicDeep(p, "SerialDB", "Has")},
 		{"serialFlushHoldsLock", "SerialDB.putBatch holds mutBatch from the batch swap until the process loop has answered the write", serialFlushHoldsLock(p.funcs["SerialDB.putBatch"])},
 		{"dbFlushHoldsLock", "DB.updateBatchWithIncrement holds mutBatch across putBatch and batch.Reset", dbFlushHoldsLock(p.funcs["DB.updateBatchWithIncrement"])},
 	}
